@@ -44,6 +44,34 @@ struct St {
     record_lookups: bool,
     // --- caller threads of a `Threads` operation
     thr: Thr,
+    // --- producer threads feeding the index writer (code under test that loads from several threads)
+    prod: Prod,
+}
+
+/// Scheduler state for producer threads: threads other than the one that opened the database that
+/// reach the document-feeding hook points. Exactly one of them runs between two decisions.
+#[derive(Default)]
+struct Prod {
+    main: Option<ThreadId>,
+    active: bool,
+    lost: bool,
+    exit: bool,
+    threads: Vec<ProdT>,
+    plan: Vec<(u8, u16)>,
+    pos: usize,
+    feed: Vec<u8>,
+    decisions: usize,
+    switches: usize,
+    last: Option<usize>,
+    free_docs: usize,
+}
+
+struct ProdT {
+    tid: ThreadId,
+    /// what the thread was first seen doing (hook point, its two numbers): a stable identity
+    key: (String, usize, usize),
+    parked: bool,
+    go: u32,
 }
 
 /// Scheduler state of a `Threads` operation: exactly one registered caller thread runs at a time.
@@ -157,6 +185,130 @@ impl H {
             if r > 0 && !self.wait_parks(p + 1) {
                 return false;
             }
+        }
+    }
+
+    /// A document-feeding hook point was reached. When threads other than the opening thread feed
+    /// documents, each of them parks before every document until the scheduler grants it a stretch.
+    fn producer_gate(&self, p: &Point<'_>) {
+        let tid = std::thread::current().id();
+        let mut st = self.st.lock().unwrap();
+        if !st.building || st.controlled || st.prod.lost {
+            return;
+        }
+        if !st.prod.active {
+            if st.prod.main == Some(tid) {
+                if p.name == "rebuild.before_add" {
+                    st.prod.free_docs += 1;
+                }
+                return;
+            }
+            st.prod.active = true;
+        }
+        let me = match st.prod.threads.iter().position(|t| t.tid == tid) {
+            Some(i) => i,
+            None => {
+                st.prod.threads.push(ProdT { tid, key: (p.name.to_string(), p.n, p.m), parked: false, go: 0 });
+                st.prod.threads.len() - 1
+            }
+        };
+        if p.name != "rebuild.before_add" {
+            return;
+        }
+        if st.prod.threads[me].go == 0 {
+            st.prod.threads[me].parked = true;
+            self.cv.notify_all();
+            while st.prod.threads[me].go == 0 && st.prod.active && !st.prod.lost {
+                let (g, t) = self.cv.wait_timeout(st, WATCHDOG * 3).unwrap();
+                st = g;
+                if t.timed_out() && st.prod.threads[me].go == 0 && st.prod.active && !st.prod.lost {
+                    st.prod.lost = true;
+                    st.taint.push("producer-park-timeout".into());
+                    self.cv.notify_all();
+                }
+            }
+            st.prod.threads[me].parked = false;
+        }
+        if st.prod.threads[me].go > 0 {
+            st.prod.threads[me].go -= 1;
+        }
+        let h = fnv1a(format!("{:?}", st.prod.threads[me].key).as_bytes());
+        st.prod.feed.extend_from_slice(&h.to_le_bytes()[..2]);
+    }
+
+    /// Are all threads of this process except the calling one asleep (blocked), i.e. is nobody
+    /// running or about to run? Read from the kernel's view of the tasks; seen twice in a row.
+    fn quiescent(own_tid: i32) -> bool {
+        for round in 0..2 {
+            let Ok(rd) = std::fs::read_dir("/proc/self/task") else { return false };
+            for e in rd.filter_map(|e| e.ok()) {
+                let name = e.file_name();
+                if name.to_string_lossy() == own_tid.to_string() {
+                    continue;
+                }
+                let Ok(stat) = std::fs::read_to_string(e.path().join("stat")) else { continue };
+                // "<pid> (<comm>) <state> ..."
+                let state = stat.rsplit_once(") ").and_then(|(_, r)| r.chars().next()).unwrap_or('R');
+                if state != 'S' {
+                    return false;
+                }
+            }
+            if round == 0 {
+                std::thread::yield_now();
+                std::thread::sleep(Duration::from_micros(50));
+            }
+        }
+        true
+    }
+
+    /// The producer scheduler: sleeps until producers appear, then, whenever every thread of the
+    /// process is blocked and producers are parked with nobody released, releases the one the plan names.
+    fn producer_scheduler(self: Arc<H>) {
+        let own = unsafe { libc::syscall(libc::SYS_gettid) as i32 };
+        loop {
+            let need = {
+                let mut st = self.st.lock().unwrap();
+                loop {
+                    if st.prod.exit {
+                        return;
+                    }
+                    if st.prod.active && !st.prod.lost {
+                        break;
+                    }
+                    let (g, _) = self.cv.wait_timeout(st, Duration::from_millis(20)).unwrap();
+                    st = g;
+                }
+                st.prod.threads.iter().any(|t| t.parked) && !st.prod.threads.iter().any(|t| t.parked && t.go > 0)
+            };
+            if !need || !H::quiescent(own) {
+                std::thread::sleep(Duration::from_micros(100));
+                continue;
+            }
+            let mut st = self.st.lock().unwrap();
+            if !st.prod.active || st.prod.lost {
+                continue;
+            }
+            let mut cand: Vec<usize> = (0..st.prod.threads.len()).filter(|i| st.prod.threads[*i].parked).collect();
+            if cand.is_empty() || cand.iter().any(|i| st.prod.threads[*i].go > 0) {
+                continue;
+            }
+            cand.sort_by(|a, b| st.prod.threads[*a].key.cmp(&st.prod.threads[*b].key));
+            if cand.windows(2).any(|w| st.prod.threads[w[0]].key == st.prod.threads[w[1]].key) {
+                let why = "indistinguishable-producers".to_string();
+                if !st.taint.contains(&why) {
+                    st.taint.push(why);
+                }
+            }
+            let (c, len) = if st.prod.plan.is_empty() { (0u8, u16::MAX) } else { st.prod.plan[st.prod.pos % st.prod.plan.len()] };
+            st.prod.pos += 1;
+            let who = cand[c as usize % cand.len()];
+            st.prod.threads[who].go = (len as u32).max(1);
+            st.prod.decisions += 1;
+            if st.prod.last.is_some() && st.prod.last != Some(who) {
+                st.prod.switches += 1;
+            }
+            st.prod.last = Some(who);
+            self.cv.notify_all();
         }
     }
 
@@ -303,12 +455,26 @@ impl Handler for H {
                         for g in st.go.iter_mut() {
                             *g = true;
                         }
+                        if st.prod.active {
+                            st.prod.lost = true;
+                        }
                         self.cv.notify_all();
                     }
                     let kind = if *interrupted { io::ErrorKind::Interrupted } else { io::ErrorKind::Other };
                     return Err(io::Error::new(kind, format!("injected failure at {}#{}", p.name, k)));
                 }
                 _ => {}
+            }
+        }
+        if matches!(p.name, "rebuild.asset_start" | "rebuild.before_add" | "rebuild.after_add") {
+            self.producer_gate(p);
+        }
+        if p.name == "rebuild.before_commit" {
+            // feeding is over: whoever is still parked (there should be nobody) goes
+            let mut st = self.st.lock().unwrap();
+            if st.prod.active {
+                st.prod.active = false;
+                self.cv.notify_all();
             }
         }
         match p.name {
@@ -616,6 +782,8 @@ fn open_db(h: &Arc<H>, slot: usize, mode: Mode, plan: &Plan) -> (Option<anything
         st.rebuilt = false;
         st.taint.clear();
         st.points.clear();
+        let main = st.prod.main;
+        st.prod = Prod { main, plan: plan.producers.clone(), ..Prod::default() };
     }
     let r = match mode {
         Mode::Mem => anything::Db::in_memory(),
@@ -627,6 +795,7 @@ fn open_db(h: &Arc<H>, slot: usize, mode: Mode, plan: &Plan) -> (Option<anything
     for g in st.go.iter_mut() {
         *g = true;
     }
+    st.prod.active = false;
     h.cv.notify_all();
     let mut switches = 0;
     for w in st.assign.windows(2) {
@@ -655,6 +824,11 @@ fn open_db(h: &Arc<H>, slot: usize, mode: Mode, plan: &Plan) -> (Option<anything
         controlled: (st.single || st.rebuilt && st.workers > 0) && !st.taint.iter().any(|t| t.starts_with("watchdog") || t == "no-worker-threads" || t == "park-timeout" || t.starts_with("empty-document")),
         taint: st.taint.clone(),
         points: st.points.clone(),
+        producers: st.prod.threads.len(),
+        feed_hash: if st.prod.threads.is_empty() { String::new() } else { format!("{:016x}", fnv1a(&st.prod.feed)) },
+        producer_decisions: st.prod.decisions,
+        producer_switches: st.prod.switches,
+        producers_controlled: !st.prod.threads.is_empty() && !st.prod.lost && st.prod.free_docs == 0 && !st.taint.iter().any(|t| t.contains("producer")),
     };
     (r.ok(), info)
 }
@@ -1080,6 +1254,11 @@ fn main() {
         log: Mutex::new(log),
     });
     anything::verif::install(h.clone());
+    h.st.lock().unwrap().prod.main = Some(std::thread::current().id());
+    {
+        let h2 = h.clone();
+        let _ = std::thread::Builder::new().name("sim-producers".into()).spawn(move || h2.producer_scheduler());
+    }
 
     let cpus_seen = unsafe {
         let mut set: libc::cpu_set_t = std::mem::zeroed();
